@@ -42,8 +42,13 @@ BigViol(r) ==
       >>
   IN {<<conj[i][1], conj[i][2]>> : i \in {i \in 1..Len(conj) : ~conj[i][3]}}
 
+\* A reader with a history ("pre" records were read from it one by one before it was handed to the parallel function, the
+\* last attempt possibly refused with BufferLimit and followed by set_policy): the parallel function continues where the
+\* reader stands - what it has to deliver is the rest of the chain.
 SmallViol(r) ==
-  LET chain == IF r.fmt = "fasta" THEN FaChain(r.input) ELSE FqChain(r.input)
+  LET full == IF r.fmt = "fasta" THEN FaChain(r.input) ELSE FqChain(r.input)
+      pre == IF "pre" \in DOMAIN r THEN r.pre ELSE 0
+      chain == IF pre > 0 THEN SubSeq(full, pre + 1, Len(full)) ELSE full
       N == Len(chain)
       \* records sequential reading delivers before anything else happens
       K == Max({k \in 0..N : \A i \in 1..k : chain[i].okRec /\ chain[i].errs = {}})
@@ -130,7 +135,11 @@ SmallViol(r) ==
       >>
   IN {<<conj[i][1], conj[i][2]>> : i \in {i \in 1..Len(conj) : ~conj[i][3]}}
 
-Viol(r) == IF r.big THEN BigViol(r) ELSE SmallViol(r)
+\* (a history that ended in an error other than BufferLimit or at the end of the input is not judged)
+HistoryOK(r) == "pre" \notin DOMAIN r \/ r.pre = 0
+                \/ (r.pre > 0 /\ LET full == IF r.fmt = "fasta" THEN FaChain(r.input) ELSE FqChain(r.input)
+                                  IN r.pre < Len(full) /\ \A i \in 1..r.pre : full[i].okRec /\ full[i].errs = {})
+Viol(r) == IF r.big THEN BigViol(r) ELSE IF HistoryOK(r) THEN SmallViol(r) ELSE {}
 
 Next == /\ l <= Len(Rec)
         /\ LET v == Viol(Rec[l]) IN
